@@ -42,7 +42,8 @@ var errNotEnoughValues = errors.New("not enough values for format string")
 // thing after the call.
 func Format(t *rt.Thread, format string, values []rt.Value) (string, error) {
 	var tmpMem uint64
-	defer t.ReleaseMem(tmpMem)
+	// The amount to release is only known when the function returns
+	defer func() { t.ReleaseMem(tmpMem) }()
 	// Temporarily require memory for building the argument list
 	tmpMem += t.RequireArrSize(unsafe.Sizeof(interface{}(nil)), len(values))
 	args := make([]interface{}, len(values))
